@@ -194,6 +194,35 @@ def shrink_ops(case, still_fails):
     return dict(case, ops=ops)
 
 
+def input_then_redefined_cases(finals):
+    """Scenario family "an input does not outlive the redefinition of its cells" (shared by C02, C06, C08; each gives
+    the last step it speaks about): element 0[] holds an INPUT and has a dependent 1[]; cells 0 is redefined - a new
+    formula (reading a reference BY NAME and calling cells 2), or the cache flag switched off and on again -, which
+    discards the input with everything else of the cells; 0[] and 1[] are evaluated again: 0[] now holds a computed
+    value; then `finals[label]` (a list of operations: a reference edit, a value edit, ...) and both are evaluated
+    again.  The reference lives in space 0 or in space 1 (cells 0 lives where the reference lives, 1 and 2 in the other:
+    a change of the namespace of cells 0 reaches 0[] through nothing but the cells itself)."""
+    cases = []
+    for R in (0, 2):
+        rsp = 0 if R < 2 else 1
+        for hit in ("setformula", "flag-off-on"):
+            for label, last in finals.items():
+                cells = [
+                    {"id": 0, "nparams": 0, "cached": True, "allow_none": False, "space": rsp,
+                     "body": ("add", ("add", ("rn", R), ("call", 2, [])), ("lit", 10))},
+                    {"id": 1, "nparams": 0, "cached": True, "allow_none": False, "space": 1 - rsp,
+                     "body": ("add", ("call", 0, []), ("lit", 1))},
+                    {"id": 2, "nparams": 0, "cached": True, "allow_none": False, "space": 1 - rsp, "body": ("lit", 5)},
+                ]
+                ev = [["eval", "0"], ["eval", "1"]]
+                h = {"setformula": [["setformula", "0", "(add (add (rn %d) (call 2)) (lit 30))" % R]],
+                     "flag-off-on": [["setcached", "0", "0"], ["setcached", "0", "1"]]}[hit]
+                cases.append({"cells": cells, "refs": {0: 1, 1: 2, 2: 3, 3: 4}, "n_rn": 2, "maxdepth": None,
+                              "ops": [["set", "0", "=", "7"], ["eval", "1"]] + h + ev + [list(o) for o in last(R)] + ev,
+                              "label": "input-then-redefined/%s/%s/ref%d" % (hit, label, R)})
+    return cases
+
+
 def run_family(ctx, out, cfg, oracle, n_quick, n_thorough, corpus_name=None, structured=None):
     """oracle(case, recs, out, stats) evaluates the property on the implementation alone.
     `structured`: cases (scenario families of the property) run on every run after the corpus and before the
